@@ -207,7 +207,8 @@ def classify(recs):
         b = r.get("bin")
         if b:
             st["binary_runs"] += 1
-            places_ok = not (c & BIT["accepted"]) or sum(x["max"] for x in r["impl"]["courses"]) < 5000
+            impl_courses = r["impl"].get("courses", []) if isinstance(r["impl"], dict) else []
+            places_ok = not (c & BIT["accepted"]) or sum(x["max"] for x in impl_courses) < 5000
             if b["exit"] == 101 or b["exit"] is None or (b["exit"] or 0) >= 128 or "panicked" in b["stderr"]:
                 viol.append(("C15: the program panics / aborts on an input document (exit %s; %s)" % (b["exit"], b["stderr"][-160:].replace("\n", " ")), r))
             elif b["exit"] == 1000:
